@@ -1,5 +1,6 @@
 import DoitModel.Proofs.ActFrame
 import DoitModel.Proofs.ActTask
+import DoitModel.Proofs.ActFwd
 /-! # C17 — action outcomes are classified exactly and output is captured intact
 
 Property theorems only (model: `Model/Act.lean`; helpers: `Proofs/Act.lean`, `Proofs/ActFrame.lean`,
@@ -168,6 +169,24 @@ theorem restore_exec (kwargsRaise : Bool) (a : Act) (body : Forest)
 /-- every scenario the harness generates as a forest satisfies the hypothesis of `restore_nested` -/
 theorem forest_well_nested (f : Forest) : WN none (flatten none f) := flatten_wn f none
 
+/-- The same **with the live copy of `Writer`** (the machine `Fwd`: a writer forwards every write to the live
+    stream it was handed, which in a nested execution is the enclosing action's writer): for every well-nested
+    list of any depth, whatever the verbosity of each execution, the cell is restored, every buffer's own
+    tokens are exactly the action's writes in order (forwarded text of nested executions may be interleaved
+    with them, never lost or reordered), and when no execution is handed a live stream nothing reaches the
+    original stream. -/
+theorem restore_nested_live (evs : List Fwd.Ev) (h : Fwd.WN none evs) (hn : (Fwd.started evs).Nodup) :
+    (Fwd.run Fwd.St.init evs).cell = .orig ∧
+    (Fwd.run Fwd.St.init evs).unbound = false ∧
+    (∀ a, a ∈ Fwd.started evs →
+      ∃ l, (Fwd.run Fwd.St.init evs).out a = some l ∧ Fwd.own a l = Fwd.writesOf a evs) ∧
+    (Fwd.allOff evs = true → (Fwd.run Fwd.St.init evs).origLog = []) := by
+  have F := Fwd.wn_frame h Fwd.St.init hn (by intro b _; exact ⟨rfl, by simp [Fwd.St.init, Fwd.bufsOf]⟩)
+    (by intro a ha; cases ha)
+  exact ⟨F.cell, F.unbound, F.outs, fun hoff => F.quiet hoff (by intro a ha; cases ha)⟩
+
+theorem forest_well_nested_live (f : Fwd.Forest) : Fwd.WN none (Fwd.flatten none f) := Fwd.flatten_wn f none
+
 /-- **Overlapping executions** (two threads of one process, F-C17a, open): a legal interleaving of two
     python-actions (each thread follows its program order) after which the cell holds the stale writer of
     action 0, action 0 lost its write, action 1 captured it, and action 1's write leaked to the original
@@ -224,6 +243,18 @@ example :
     (run St.init (flatten none f)).out 1 = some [(1, 2), (1, 4)] ∧
     (run St.init (flatten none f)).out 2 = some [(2, 3)] ∧
     (run St.init (flatten none f)).out 3 = some [(3, 6)] := by
+  decide
+
+/-- the live copy at work: action 0 (live) runs action 1 (live) and action 2 (quiet); 1's text is forwarded into
+    0's buffer and on to the original stream, 2's is not -/
+example :
+    let f : Fwd.Forest := .exec 0 true (.write 1 (.exec 1 true (.write 2 .nil) (.exec 2 false (.write 3 .nil) (.write 4 .nil)))) .nil
+    (Fwd.started (Fwd.flatten none f)).Nodup ∧
+    (Fwd.run Fwd.St.init (Fwd.flatten none f)).cell = .orig ∧
+    (Fwd.run Fwd.St.init (Fwd.flatten none f)).out 0 = some [(0, 1), (1, 2), (0, 4)] ∧
+    (Fwd.run Fwd.St.init (Fwd.flatten none f)).out 1 = some [(1, 2)] ∧
+    (Fwd.run Fwd.St.init (Fwd.flatten none f)).out 2 = some [(2, 3)] ∧
+    (Fwd.run Fwd.St.init (Fwd.flatten none f)).origLog = [(0, 1), (1, 2), (0, 4)] := by
   decide
 
 /-- a task whose third action fails: two actions merged, the fourth never runs -/
